@@ -760,13 +760,32 @@ def acceptance(case, calls, flat, stats):
         op = c["op"]
         o = op["op"]
         before_pending = set(pending)
-        # announcements and nested completions inside this call
+        # announcements and nested completions inside this call; a completion that is being delivered is not
+        # outstanding any more (a nested report of the same service is a duplicate)
+        inflight = set()
+        if (o == "finish" or (o == "junk" and op["junk"] in ("dup", "fromjson"))) and op["n"] < len(announced):
+            if announced[op["n"]] in pending:
+                inflight.add(announced[op["n"]])
+        nested = []
         for ev in c["out"]:
             if ev[0] == "INV" and ev[1] == "ss" and ev[2] == 0:
                 announced.append(ev[5])
                 pending.add(ev[5])
-            elif ev[0] == "RET":
-                pending.discard(ev[1])
+            elif ev[0] == "FIRE":
+                exp = ev[1] in pending and ev[1] not in inflight
+                nested.append((ev[1], exp))
+                if exp:
+                    inflight.add(ev[1])
+            elif ev[0] in ("RET", "RETFALSE"):
+                exp = None
+                got = ev[0] == "RET"
+                if nested and nested[-1][0] == ev[1]:
+                    exp = nested.pop()[1]
+                if exp is not None and got != exp:
+                    out.append({"prop": "C08", "rule": "accept_iff", "msg": "call %d: completion of %r reported from inside a callback returned %r, expected %r (%s)"
+                                % (ci, ev[1], got, exp, "outstanding" if exp else "being delivered or not outstanding")})
+                if got:
+                    pending.discard(ev[1])
         if c.get("exc"):
             prev = c
             continue
@@ -891,8 +910,8 @@ def fanout(case, calls, flat, stats):
             exp = regs[kind]
             top = stack[-1] if stack else None
             if top and top["kind"] == kind and top["key"] == (ev[3], ev[4]) and top["next"] < len(exp) and exp[top["next"]] == fn:
-                if not top["interrupted"] and ev[3:] != top["first"][3:]:
-                    out.append({"prop": "C20", "rule": "same_argument", "msg": "call %d: listeners of one %s notification saw different arguments %r vs %r" % (ci, kind, top["first"][3:7], ev[3:7])})
+                if ev[3:] != top["first"][3:]:
+                    out.append({"prop": "C20", "rule": "same_argument_after_reentrant_completion" if top["interrupted"] else "same_argument", "msg": "call %d: listeners of one %s notification saw different arguments %r vs %r" % (ci, kind, top["first"][3:7], ev[3:7])})
                 top["next"] += 1
             elif exp and fn == exp[0]:
                 stack.append({"kind": kind, "key": (ev[3], ev[4]), "first": ev, "next": 1, "interrupted": False})
